@@ -479,7 +479,7 @@ def o4_2_database_iterator(mir, tier):
     opname = {'first': 'seek_to_first', 'last': 'seek_to_last', 'seek': 'seek', 'next': 'next', 'prev': 'prev'}
     # deep version stacks: one user key with 10 versions (most of them newer than the iterator's sequence number) next to other keys -
     # long runs of entries the iterator has to step over (a "skip ahead after k entries" shortcut lives there); few patterns
-    DEEP = [(11, (10, 1))] if tier == 'quick' else [(11, (10, 1)), (11, (1, 10))]
+    DEEP = [(11, (10, 1))]
     DEEP_PATTERNS = [['first', 'next'], ['seek', 'next'], ['last', 'prev']]
     all_shapes = [(n, comp, patterns) for n in range(1, E_MAX + 1) for comp in compositions(n)] + [(n, comp, DEEP_PATTERNS) for n, comp in DEEP]
     if True:
